@@ -1,6 +1,7 @@
 """C01 Formatted output is always syntactically valid - static necessary conditions."""
 import r_tree
 import r_paren
+import r_arms
 
 EXPLANATION = (
     "Named mechanisms of the property, each decided on every path of every feature configuration: (R-PAREN d) the "
@@ -8,7 +9,7 @@ EXPLANATION = (
     "(R-BRACKET) every constructor of `[` child `]` (index, table key, Luau type indexer) tests for a long-bracket "
     "string and spaces it; (R-SEMI) check_stmt_requires_semicolon covers every statement kind that ends with an "
     "expression x every kind that can start with `(`; (R-SYM) every literal written by fmt_symbol!/fmt_op!/"
-    "TokenReference::symbol is a valid symbol, newline free, and is the lexeme of the token it replaces. (R-COLLAPSE) the single-line `if` and the collapsed function body are chosen only after every token that would be followed by more text on the line was tested for comments. Not decided: "
+    "TokenReference::symbol is a valid symbol, newline free, and is the lexeme of the token it replaces. (R-COLLAPSE) the single-line `if` and the collapsed function body are chosen only after every token that would be followed by more text on the line was tested for comments. (R-ARMS) every arm that handles a feature-gated AST variant on the pinned tree (frozen table, 200+ arms; invisible to the default-feature suite and usually followed by a silent wildcard) is still present. Not decided: "
     "that a trailing line comment is always followed by a newline on every layout (layout dependent); the optional "
     "built-in re-parse.")
 ASSUMPTIONS = ["Lua lexical facts: `--` starts a comment, `[[` opens a long bracket, a statement starting with `(` "
@@ -18,4 +19,4 @@ ASSUMPTIONS = ["Lua lexical facts: `--` starts a comment, `[[` opens a long brac
 
 def run(ctx):
     return [r_paren.rule_paren(ctx, "C01", parts=("minus",)), r_tree.rule_bracket(ctx, "C01"),
-            r_tree.rule_semi(ctx, "C01"), r_tree.rule_sym(ctx, "C01"), r_tree.rule_collapse(ctx, "C01")]
+            r_tree.rule_semi(ctx, "C01"), r_tree.rule_sym(ctx, "C01"), r_tree.rule_collapse(ctx, "C01"), r_arms.rule_arms(ctx, "C01")]
